@@ -76,6 +76,20 @@ Fixpoint ins_desc (key : msg -> N * N * N) (x : msg) (l : list msg) : list msg :
   end.
 Definition sort_desc (key : msg -> N * N * N) (l : list msg) : list msg := fold_right (ins_desc key) [] l.
 
+(* groups/types.rs Group::update_last_message_if_newer: the cached last-message pointer of the group record
+   (last_message_at, last_message_processed_at, last_message_id), each field optional (backfilled data) *)
+Definition ptr := (option N * option N * option N)%type.
+Definition ptr_of (m : msg) : ptr := (Some (m_created m), Some (m_processed m), Some (m_id m)).
+Definition upd_ptr (p : ptr) (m : msg) : ptr :=
+  let '(a, pa, i) := p in
+  let dominated := match a, pa, i with
+    | None, _, _ => true
+    | Some ea, Some ep, Some ei => key3_gtb (display_key m) (ea, ep, ei)
+    | Some ea, None, _ => ea <=? m_created m
+    | Some ea, Some _, None => ea <? m_created m
+    end in
+  if dominated then ptr_of m else p.
+
 Definition sort_key (sort : N) : msg -> N * N * N := if sort =? 0 then display_key else processed_key.
 
 Definition group_msgs (s : store) (g : N) : list msg :=
